@@ -9,6 +9,7 @@
 // parser == outcome of a fresh parser on the same bytes; every outcome is an
 // expression or a SymEngineException; free function parse() == fresh Parser.
 #include "../sim/harness.h"
+#include "../sim/alloc_seam.h"
 #include <cstring>
 #include <symengine/parser.h>
 #include <symengine/parser/parser.h>
@@ -50,7 +51,11 @@ struct G {
     std::string ident()
     {
         static const char *ids[] = {"x",  "y",   "z",  "t",  "a1", "_b", "x_1",
-                                    "xy", "foo", "E1", "w0", "c0", "kk", "x"};
+                                    "xy", "foo", "E1", "w0", "c0", "kk", "x",
+                                    // the same names in other letter cases: a
+                                    // parser must not fold them together
+                                    "X",  "Y",   "Xy", "XY", "Foo", "FOO", "Kk",
+                                    "KK", "C0",  "T",  "fOO", "A1", "X_1"};
         if (g.chance(1, 25))
             return "\xce\xb1"; // UTF-8 alpha: bytes >= 0x80 are identifier chars
         if (g.chance(1, 40))
@@ -90,7 +95,13 @@ struct G {
         static const char *cs[] = {"e",   "E",   "pi",   "I",    "oo", "inf",
                                    "zoo", "nan", "True", "False", "EulerGamma",
                                    "Catalan", "GoldenRatio"};
-        return cs[g.below(sbml ? 3 : 13)];
+        if (sbml) {
+            static const char *sc[] = {"pi", "PI", "Pi", "exponentiale", "ExponentialE", "avogadro",
+                                       "time", "Time", "inf", "INF", "infinity", "nan", "NaN",
+                                       "notanumber", "true", "True", "false", "FALSE", "e", "E"};
+            return sc[g.below(sizeof sc / sizeof sc[0])];
+        }
+        return cs[g.below(13)];
     }
     std::string atom()
     {
@@ -130,9 +141,53 @@ struct G {
         static const char *fnm[] = {"max", "min", "levi_civita"};
         budget--;
         unsigned k = (unsigned)g.below(10);
-        if (k < 5)
-            return std::string(f1[g.below(sizeof f1 / sizeof f1[0])]) + ws()
-                   + "(" + expr(2) + ")";
+        if (k < 5) {
+            std::string name = f1[g.below(sizeof f1 / sizeof f1[0])];
+            if (g.chance(1, 8)) // "Sin", "SIN": built-ins of the SBML grammar
+                name[0] = (char)toupper((unsigned char)name[0]); // ignore case; the main grammar does not
+            return name + ws() + "(" + expr(2) + ")";
+        }
+        if (sbml && g.chance(1, 3)) {
+            // MathML-style names of the SBML grammar, in any letter case
+            static const char *nary[] = {"plus", "times", "max", "min", "Plus", "TIMES", "MAX"};
+            static const char *bin[] = {"minus", "divide", "pow", "power", "root", "log", "Power", "ROOT"};
+            static const char *cmp[] = {"eq", "neq", "geq", "gt", "leq", "lt", "Eq", "GT", "Leq"};
+            static const char *lg[] = {"and", "or", "xor", "And", "OR", "Xor"};
+            switch (g.below(6)) {
+                case 0: {
+                    std::string s = std::string(nary[g.below(7)]) + "(";
+                    unsigned n = (unsigned)g.below(4);
+                    for (unsigned i = 0; i < n; i++)
+                        s += (i ? "," + ws() : std::string()) + expr(1);
+                    return s + ")";
+                }
+                case 1:
+                    return std::string(bin[g.below(8)]) + "(" + small_arg() + "," + ws() + small_arg() + ")";
+                case 2: {
+                    std::string s = std::string(cmp[g.below(9)]) + "(" + expr(1);
+                    unsigned n = (unsigned)g.below(3);
+                    for (unsigned i = 0; i < n; i++)
+                        s += "," + ws() + expr(1);
+                    return s + ")";
+                }
+                case 3: {
+                    std::string s = std::string(lg[g.below(6)]) + "(";
+                    unsigned n = (unsigned)g.below(3);
+                    for (unsigned i = 0; i < n; i++)
+                        s += (i ? "," : "") + boolean(0);
+                    return s + ")";
+                }
+                case 4:
+                    return std::string(g.chance(1, 2) ? "not" : "NOT") + "(" + boolean(0) + ")";
+                default: {
+                    std::string s = std::string(g.chance(1, 3) ? "Piecewise" : "piecewise") + "(";
+                    unsigned n = 1 + (unsigned)g.below(2);
+                    for (unsigned i = 0; i < n; i++)
+                        s += expr(1) + "," + ws() + boolean(0) + ",";
+                    return s + ws() + expr(1) + ")";
+                }
+            }
+        }
         if (k < 7) {
             if (sbml)
                 return std::string(f1s[g.below(6)]) + "(" + expr(2) + ")";
@@ -191,7 +246,9 @@ struct G {
                     return "!" + boolean(depth - 1);
             }
         }
-        switch (g.below(6)) {
+        switch (g.below(7)) {
+            case 6: // '^' between booleans: Xor when convert_xor is false, a power otherwise
+                return boolean(depth - 1) + ws() + "^" + ws() + boolean(depth - 1);
             case 0:
                 return boolean(depth - 1) + ws() + "&" + ws() + boolean(depth - 1);
             case 1:
@@ -259,6 +316,23 @@ struct G {
     }
 };
 
+// not derived from the grammar at all: tokens and bytes in random order
+std::string gen_soup(Rng &g)
+{
+    static const char *tok[] = {"x", "y", "1", "2", "0", "10", ".", "e", "E", "+", "-", "*", "/", "**", "^",
+                                "(", ")", ",", " ", "\t", "\n", "<", ">", "=", "==", "<=", ">=", "!=", "!",
+                                "&", "|", "~", "&&", "||", "@", "%", "sin", "cos", "log", "sqrt", "abs",
+                                "max", "min", "Piecewise", "piecewise", "True", "False", "pi", "I", "oo",
+                                "zoo", "nan", "And", "Or", "Not", "Eq", "Lt", "f", "_", "1e", "1e+", "0x",
+                                "3.", ".5", "5.e2", "1e309", "1e-400", "\xce\xb1", "\xff", "\x80", "\x01",
+                                "\x7f", "$", "#", "?", ":", ";", "[", "]", "{", "}", "\"", "'", "\\", "`"};
+    unsigned n = 1 + (unsigned)g.below(g.chance(1, 4) ? 60 : 14);
+    std::string s;
+    for (unsigned i = 0; i < n; i++)
+        s += tok[g.below(sizeof tok / sizeof tok[0])];
+    return s;
+}
+
 std::string gen_valid(Rng &g, bool sbml, int depth)
 {
     G gg{g, sbml, 40};
@@ -275,8 +349,8 @@ Json gen_fault(Rng &g, Rng &gs, bool sbml)
 {
     Json f = Json::object();
     static const char *kinds[] = {"trunc", "byte", "nul", "dup",   "del",
-                                  "splice", "paren", "opbyte", "swap"};
-    std::string k = kinds[g.below(9)];
+                                  "splice", "paren", "opbyte", "swap", "tail", "head"};
+    std::string k = kinds[g.below(11)];
     f["kind"] = k;
     f["at"] = (long long)g.below(1000);
     if (k == "byte")
@@ -284,6 +358,12 @@ Json gen_fault(Rng &g, Rng &gs, bool sbml)
     if (k == "opbyte") {
         static const char ops[] = "+-*/^(),<>=!|&~@.e ";
         f["v"] = (long long)(unsigned char)ops[g.below(sizeof ops - 1)];
+    }
+    if (k == "tail" || k == "head") {
+        // a byte no token starts with, as the last / first thing in the input
+        static const char odd[] = "$#`?\\\"';:[]{}\x01\x7f%@";
+        f["v"] = (long long)(unsigned char)odd[g.below(sizeof odd - 1)];
+        f["len"] = (long long)g.below(3); // blanks after (before) it
     }
     if (k == "dup" || k == "del")
         f["len"] = (long long)(1 + g.below(12));
@@ -304,16 +384,35 @@ Json gen(uint64_t seed, const std::string &tier)
     // swarm: fault rate and enabled fault mix for this run
     unsigned fault_pct = (unsigned)g.below(4) * 25; // 0,25,50,75
     cfg["fault_pct"] = fault_pct;
+    // allocator seam: when is a freed address handed out again (the
+    // sanitizer's quarantine would otherwise hide every address reuse)
+    static const char *pol[] = {"system", "lifo", "lifo", "fifo", "random"};
+    cfg["policy"] = pol[g.below(5)];
+    cfg["alloc_seed"] = (long long)(g.next() >> 2);
     plan["config"] = cfg;
     unsigned n = 10 + (unsigned)g.below(thorough ? 110 : 70);
     Json ops = Json::array();
     for (unsigned i = 0; i < n; i++) {
         Json o = Json::object();
+        if (i > 0 && g.chance(1, 6)) {
+            // the same bytes again on the same object (right away, or a few
+            // inputs later), possibly with convert_xor flipped
+            size_t back = 1 + (size_t)g.below(g.chance(2, 3) ? 1 : 4);
+            o = ops[ops.size() - std::min(back, ops.size())];
+            o["again"] = true;
+            if (g.chance(1, 4))
+                o["xor"] = !o.at("xor").as_bool();
+            ops.push(o);
+            continue;
+        }
         unsigned w = (unsigned)g.below(10);
         bool sbml = w < 3;
-        o["which"] = sbml ? "sbml" : (w == 3 ? "free" : "main");
+        o["which"] = sbml ? (g.chance(1, 4) ? "free_sbml" : "sbml") : (w == 3 ? "free" : "main");
+        // the free functions take a constant map per call: same names,
+        // different values from call to call
+        o["consts"] = (unsigned)g.below(3);
         Rng gs = g.fork();
-        o["src"] = gen_valid(gs, sbml, 1 + (int)g.below(3));
+        o["src"] = g.chance(1, 12) ? gen_soup(gs) : gen_valid(gs, sbml, 1 + (int)g.below(3));
         o["xor"] = !g.chance(1, 4);
         Json fs = Json::array();
         if (g.below(100) < fault_pct) {
@@ -356,6 +455,11 @@ std::string apply_faults(const std::string &src, const Json &faults, Run &run)
             s = s.substr(0, at) + w.substr(w.size() / 2);
         } else if (k == "paren") {
             s.insert(std::min(at, s.size()), 1, (char)f.geti("v", 40));
+        } else if (k == "tail") {
+            s.push_back((char)f.geti("v", '$'));
+            s.append((size_t)(f.geti("len") % 4), ' ');
+        } else if (k == "head") {
+            s.insert(0, std::string(1, (char)f.geti("v", '$')) + std::string((size_t)(f.geti("len") % 4), ' '));
         } else if (k == "swap") {
             if (s.size() >= 2) {
                 size_t a = at % (s.size() - 1);
@@ -376,6 +480,8 @@ bool cheap(const std::string &s0)
     std::string s = s0.substr(0, s0.find('\0'));
     if (s.size() > 2500)
         return false;
+    for (auto &c : s) // the SBML grammar ignores the case of built-in names
+        c = (char)tolower((unsigned char)c);
     size_t npow = 0, maxrun = 0, runs = 0, run = 0;
     bool big_digit = false;
     for (size_t i = 0; i < s.size(); i++) {
@@ -449,6 +555,8 @@ bool cheap(const std::string &s0)
 bool known_deep_recursion_family(const std::string &s0)
 {
     std::string s = s0.substr(0, s0.find('\0'));
+    for (auto &c : s)
+        c = (char)tolower((unsigned char)c);
     for (const char *w : {"lowergamma", "uppergamma"})
         for (size_t p = s.find(w); p != std::string::npos; p = s.find(w, p + 1)) {
             // the text of the call's argument list: up to the matching ')'
@@ -470,12 +578,28 @@ bool known_deep_recursion_family(const std::string &s0)
     return false;
 }
 
-std::map<const std::string, const RCP<const Basic>> local_constants()
+std::map<const std::string, const RCP<const Basic>> local_constants(unsigned variant = 1)
 {
+    if (variant == 2) // the same names bound to other values
+        return {{"c0", integer(-7)},
+                {"kk", symbol("kappa")},
+                {"x_1", add(symbol("y"), integer(3))}};
     return {{"c0", integer(42)},
             {"kk", add(symbol("x"), integer(1))},
             {"x_1", symbol("renamed")}};
 }
+
+struct AllocScope {
+    AllocScope(simalloc::Policy p, uint64_t seed)
+    {
+        simalloc::configure(p, seed, (size_t)256 << 20, (size_t)2 << 30);
+        simalloc::reset_counters();
+    }
+    ~AllocScope()
+    {
+        simalloc::deactivate();
+    }
+};
 
 template <class P>
 std::string outcome_of(P &p, const std::string &s, bool xr, bool sbml);
@@ -518,6 +642,13 @@ void exec(Run &run)
     bool run_known_family
         = run.plan.at("config").has("run_known_family")
           && run.plan.at("config").at("run_known_family").as_bool();
+    std::string pol = run.plan.at("config").gets("policy", "system");
+    simalloc::Policy policy = pol == "lifo"     ? simalloc::LIFO
+                              : pol == "fifo"   ? simalloc::FIFO
+                              : pol == "random" ? simalloc::RANDOM
+                                                : simalloc::SYSTEM;
+    AllocScope scope(policy, (uint64_t)run.plan.at("config").geti("alloc_seed", 1));
+    run.fault("alloc_policy_" + pol);
     std::unique_ptr<Parser> reused(new Parser(consts));
     std::unique_ptr<SbmlParser> reused_sbml(new SbmlParser(consts));
     const Json &ops = run.plan.at("ops");
@@ -529,6 +660,8 @@ void exec(Run &run)
         std::string which = o.gets("which", "main");
         bool xr = o.at("xor").as_bool();
         std::string s = apply_faults(o.gets("src"), o.at("faults"), run);
+        if (o.has("again") && o.at("again").as_bool())
+            run.probe("same_input_again");
         if (!run_known_family && known_deep_recursion_family(s)) {
             run.probe("skipped_known_finding_family");
             run.ev("skip known-finding family");
@@ -552,9 +685,24 @@ void exec(Run &run)
                     after_fail++;
                 }
                 last_failed_sbml = got.compare(0, 3, "ok:") != 0;
+            } else if (which == "free_sbml") {
+                // parse_sbml(): no object in the caller's hands at all
+                unsigned cv = (unsigned)o.geti("consts") % 3;
+                auto cm = cv ? local_constants(cv) : std::map<const std::string, const RCP<const Basic>>();
+                got = describe([&] { return parse_sbml(s, cm); });
+                where = "fresh";
+                SbmlParser fresh(cm);
+                want = describe([&] { return fresh.parse(s); });
+                run.probe("free_function_with_constants_variant_" + std::to_string(cv));
             } else {
                 if (which == "free") {
-                    got = describe([&] { return parse(s, xr, consts); });
+                    unsigned cv = (unsigned)o.geti("consts") % 3;
+                    auto cm = cv ? local_constants(cv) : std::map<const std::string, const RCP<const Basic>>();
+                    got = describe([&] { return parse(s, xr, cm); });
+                    where = "fresh";
+                    Parser fresh(cm);
+                    want = describe([&] { return fresh.parse(s, xr); });
+                    run.probe("free_function_with_constants_variant_" + std::to_string(cv));
                 } else {
                     got = describe([&] { return reused->parse(s, xr); });
                     if (last_failed_main) {
@@ -563,9 +711,11 @@ void exec(Run &run)
                     }
                     last_failed_main = got.compare(0, 3, "ok:") != 0;
                 }
-                where = "fresh";
-                Parser fresh(consts);
-                want = describe([&] { return fresh.parse(s, xr); });
+                if (which != "free") {
+                    where = "fresh";
+                    Parser fresh(consts);
+                    want = describe([&] { return fresh.parse(s, xr); });
+                }
             }
         } catch (const std::exception &e) {
             run.ev("input " + printable(s));
